@@ -269,7 +269,12 @@ class Fn(object):
             a, k = spell(self.sig, cfg['pool'][i % len(cfg['pool'])], 0)
             c = ns['f'](*a, **k)
             if c not in self.raising:
-                self.raising[c] = getattr(builtins, cls)('generated failure #%d' % i)
+                e = getattr(builtins, cls)('generated failure #%d' % i)
+                # every second one carries an explicit cause (as after `raise X from Y`); the cause is part of what the caller must receive
+                e._vcause = LookupError('root cause of failure #%d' % i) if i % 2 else None
+                if e._vcause is not None:
+                    e.__cause__ = e._vcause
+                self.raising[c] = e
 
     def _canon(self, named, va, vk):
         if self.typed_top:
